@@ -285,10 +285,13 @@ func (chaosEngine) Generate(rng *rand.Rand, prop string, thorough bool) *Plan {
 	parts := splitKeys(cfg.NKeys, n)
 	closer := rng.Intn(n)
 	for c := 0; c < n; c++ {
-		if len(parts[c]) == 0 {
-			parts[c] = []int{0}
-		}
 		w := map[string]int{"put": 25, "del": 10, "get": 15, "geta": 5, "has": 5, "count": 3, "items": 3, "sync": 3, "compact": 4, "backup": 1, "filesize": 2, "metrics": 1}
+		if len(parts[c]) == 0 {
+			// more tasks than keys: this one owns no key and only reads (one writer per key keeps the
+			// final-contents oracle exact)
+			parts[c] = []int{0}
+			w["put"], w["del"] = 0, 0
+		}
 		ops := genClient(rng, cfg, 4+rng.Intn(25), w, parts[c], &id, concSizes)
 		if c == closer || rng.Intn(6) == 0 {
 			pos := rng.Intn(len(ops) + 1)
@@ -316,6 +319,12 @@ func (c chaosEngine) Execute(p *Plan) *RunResult {
 		return res
 	}
 	res.Probes["close_raced"]++
+	// "After Close returns, no goroutine started by the database is left running": the scheduler granted a
+	// lock or FS operation to a database-spawned goroutine after the first successful Close had returned
+	if cr.sim.LastExternalGrant > cr.closeRet {
+		res.V = violf("goroutine-running-after-close", "a goroutine started by the database was granted a step at event %d, after Close returned at event %d", cr.sim.LastExternalGrant, cr.closeRet)
+		return res
+	}
 	// allowed final contents per key (single writer per key: preload by main, then one client)
 	wbk := writesByKey(cr.hist, keys)
 	al := map[string]valset{}
@@ -327,12 +336,14 @@ func (c chaosEngine) Execute(p *Plan) *RunResult {
 		for _, w := range wbk[ki] {
 			o.history[k] = o.history[k].add(evVal(w))
 			if w.Inv > cr.closeRet {
+				// lost the race outright: "either fails with an error or has no effect on the contents"
 				res.Probes["write_started_after_close"]++
 				if w.Err == "" {
-					res.V = violf("write-acked-after-close", "task %d %s was invoked after Close had returned (stamp %d > %d) and returned nil", w.Task, w.Op, w.Inv, cr.closeRet)
-					return res
+					res.Probes["write_after_close_returned_nil"]++
+					continue // returned nil: must have no effect, its value is not allowed
 				}
-				continue // must have no effect
+				set = set.add(evVal(w)) // failed: may have reached the log (pogreb does not fence a closed DB)
+				continue
 			}
 			if w.Err == "" {
 				base = evVal(w)
@@ -344,13 +355,13 @@ func (c chaosEngine) Execute(p *Plan) *RunResult {
 		}
 		al[k] = append(valset{base}, set...)
 	}
-	if h, hm := cr.env.FS.OpenHandles(); h != 0 {
-		res.V = violf("handle-leak", "%d file handles still open after Close: %v", h, hm)
-		return res
+	// Open handles / a held lock after Close are C15 / C13 matters, not clauses of C10 (a Put that lost the
+	// race with Close may roll the log over and leave a new segment open): counted, not judged.
+	if h, _ := cr.env.FS.OpenHandles(); h != 0 {
+		res.Probes["handles_open_after_close"]++
 	}
 	if cr.env.FS.LocksHeld() != 0 {
-		res.V = violf("lock-leak", "lock still held after Close")
-		return res
+		res.Probes["lock_held_after_close"]++
 	}
 	// view 1: clean reopen; view 2: recovery from the log (lock file re-created)
 	snap := cr.env.FS.Snapshot()
@@ -366,7 +377,7 @@ func (c chaosEngine) Execute(p *Plan) *RunResult {
 			im.Files[dbDir+"/lock"] = &FileState{}
 			name = "reopen with recovery"
 		}
-		if _, v := checkImage(p.Cfg, keys, im, o, al, res.Probes); v != nil {
+		if _, v := checkImageWal(p.Cfg, keys, im, o, al, res.Probes, true); v != nil {
 			v.Class = "after-close-" + v.Class
 			v.Detail = name + ": " + v.Detail
 			res.V = v
